@@ -22,7 +22,7 @@ use hashbrown::{
     HashMap, HashSet,
     hash_map::{Entry, Keys},
 };
-use serde::{Deserialize, Serialize, de::DeserializeOwned};
+use serde::{Deserialize, Deserializer, Serialize, de::DeserializeOwned};
 use std::{
     collections::VecDeque,
     hash::Hash,
@@ -140,12 +140,22 @@ where
 {
     #[serde(rename = "v")]
     #[serde(skip_serializing_if = "Option::is_none")]
+    #[serde(default = "Option::default", deserialize_with = "deserialize_some")]
     value: Option<V>,
     #[serde(rename = "t")]
     #[serde(skip_serializing_if = "Option::is_none")]
     tree: Option<Tree<K, V>>,
     #[serde(skip, default)]
     _key_type: PhantomData<K>,
+}
+
+/// A value that is present is a value, even if it is `null`: only a missing field means "no value".
+fn deserialize_some<'de, T, D>(deserializer: D) -> Result<Option<T>, D::Error>
+where
+    T: Deserialize<'de>,
+    D: Deserializer<'de>,
+{
+    T::deserialize(deserializer).map(Some)
 }
 
 impl<K, V> Node<K, V>
